@@ -22,7 +22,7 @@ TABLE = {
             "All scale-variation keys of the runs explored are recomputed from the central-scale per-kernel vectors, beta coefficients in closed form and independently convolved splitting matrices; the four switch settings are compared bit for bit.",
             "ekore anomalous dimensions trusted for the kernel-validity part"),
     "C06": ("exploration", "probe on Combiner + public nf observables vs exact-rational threshold model; threshold metamorphic pairs", "§2 C06",
-            "nf used by the code (probe) and visible in the output (active rows, beta0 in the muR term) is compared with an exact-rational count at, one ulp below and above every matching scale and at random Q2, all schemes.",
+            "nf used by the code (probe) and visible in the output (active rows, beta0 in the muR term) is compared with an exact-rational count at, one ulp below and above every matching scale and at random Q2, all schemes; rows of inactive flavours must vanish in every heavyness/order; one run spanning several nf regions must agree with stand-alone runs; ZM-VFNS cards with different thresholds but equal nf must be bit-identical.",
             "thresholds generated sorted and with exactly representable products"),
     "C07": ("exploration", "metamorphic relation monitor between observables/runs (additivity), entrywise", "§2 C07",
             "The four additive partitions are checked entry by entry for every order key on seeded cells; re-association noise is 1e-16, tolerance 1e-12.",
@@ -31,7 +31,7 @@ TABLE = {
             "For single-massive-quark configurations the normalised difference massive-asymptotic must fall at least like ln^2(xi)/xi between xi=1e2 and 1e6, per order, entrywise and contracted with PDFs.",
             "bounded restatement: no finite run decides a limit; quadrature noise limits xi<=1e6"),
     "C09": ("exploration", "invariant monitor at the output (exact zeros at/below W2=4m2, exact-rational predicate) + integrand probe + convolution-point probe", "§2 C09",
-            "Points on both sides of and exactly at the hadronic threshold (dyadic constructions, +-1 ulp) must give exactly zero pair-production rows; recorded heavy RSLs must vanish beyond the partonic threshold; CC heavy kernels must be convolved at x(1+m2/Q2).",
+            "Points on both sides of and exactly at the hadronic threshold (dyadic constructions, +-1 ulp) must give exactly zero pair-production rows; the O(a_s^2) pair radiation off light quarks (in <kind>_light) must not notice a heavier quark at/below threshold; recorded heavy RSLs must vanish beyond the partonic threshold; CC heavy kernels must be convolved at x(1+m2/Q2).",
             "exactly representable threshold constructions"),
     "C10": ("exploration", "reference-model monitor: published TMC formulas evaluated on observed uncorrected operators of the same configuration", "§2 C10",
             "TMC=1,2,3 operators are compared with Schienbein et al./Accardi-Melnitchouk formulas assembled from TMC=0 operators observed at xi and at the grid nodes, with independently integrated kernel weights; continuity in M and rejection outside the grid.",
@@ -46,7 +46,7 @@ TABLE = {
             "Pairs/quadruples of runs are compared entrywise or bit for bit on seeded cells over kinds, schemes, orders, EW parameters and arbitrary CKM.",
             "MZ=MW=1e12 realises decoupling"),
     "C14": ("exploration", "history monitor: many request histories against the same configuration, bit-for-bit, with cache-state probes and injected aborts", "§2 C14",
-            "Each base request is replayed inside permuted/extended/reduced/repeated/aborted/scribbled histories; probes count cache hits, misses and drops so that histories that never touched a cache do not count.",
+            "Each base request is replayed inside permuted/extended/reduced/repeated/aborted/scribbled histories and after runners on other grids; probes count cache hits, misses and drops so that histories that never touched a cache do not count; every base request is also recomputed in a second set of processes (other order and partition, twin grid served first) and compared bit for bit.",
             "single-threaded program: histories are sequences, not interleavings"),
     "C15": ("exploration", "round-trip monitor over dump/load chains of real runner outputs, field-by-field and through predictions", "§2 C15",
             "tar and YAML chains (three cycles, crossed) on outputs with SF/XS mixes, SV keys, TMC, empty and None observables; everything compared with array_equal.",
@@ -61,10 +61,10 @@ TABLE = {
             "Every numba dispatcher found in yadism.* is executed compiled and via py_func on the argument vectors the calling classes actually pass; full runs are repeated under NUMBA_BOUNDSCHECK=1 and with NUMBA_DISABLE_JIT=1.",
             "numba's interpreter fallback (py_func) is the reference semantics"),
     "C19": ("exploration", "relation-between-runs monitor along grid-refinement families against a grid-independent truth (analytic PDF, independent quadrature)", "§2 C19",
-            "For smooth PDFs the prediction error on each grid is bounded by K times the measured interpolation error of that grid; node continuity is checked at x_k(1+-1e-9).",
+            "For smooth PDFs the prediction error on each grid is bounded by K times the measured interpolation error of that grid; refinement must not make it worse; SV keys, TMC predictions and a twin grid (same size/end points, other nodes) must agree within the interpolation accuracy; node continuity is checked at x_k(1+-1e-9).",
             "K factors calibrated on the pinned tree (loose by design); adequate grid = interpolation error <= 1e-2"),
     "C20": ("exploration", "tracked-container monitor (every mutating method of the caller's nested cards logged) + echo and idempotence oracles", "§2 C20",
-            "Cards are handed over as logging dict/list subclasses and deep-compared after every API call; outputs are checked to echo cards/grid/pids/projectile and not to alias the caller's objects; upgrade idempotence on all spellings.",
+            "Cards are handed over as logging dict/list subclasses and deep-compared after every API call; outputs are checked to echo cards/grid/pids/projectile, to follow the given kinematics order and - by object identity - to share no container with the caller's cards or with each other; upgrade idempotence on all spellings.",
             "mutations observed through the container API"),
 }
 PENDING_REASON = "not yet claimed: its runtime monitor is designed (DESIGN.md §2) but not built/validated in this round; runtime monitoring does apply"
